@@ -29,7 +29,7 @@ ASSUMPTIONS = ["weights are compared over exact dyadic rationals: the generator 
                "the field operator's matrix is the reference `Σ coeff · Π ladder` with the sign string on later sites "
                "(field_operator.py:201-217), checked against `op.as_matrix()` and an independent NumPy reference on every case",
                "scipy.sparse kron / csr arithmetic in as_matrix are modelled by their index formulas, not verified"]
-RULE = ("L = 1..5 x every create/annihilate pattern of 0..4 operators (exhaustive; thorough: x four coefficient styles) with dense / "
+RULE = ("L = 1..5 (thorough: 1..6) x every create/annihilate pattern of 0..4 operators (exhaustive; thorough: x four coefficient styles) with dense / "
         "sparse / zero / real / complex dyadic coefficient tensors, sums of 1..3 terms, exactly cancelling patterns, coefficients "
         "around the 1e-14 pruning threshold (powers of two 2^-50..2^-44), small (2^-30, 2^-20) coefficients, Fortran-ordered / "
         "integer / nested-list coefficient arrays, and a malformed stream (two fields, non-fermionic field, mutated operator type, "
@@ -167,6 +167,15 @@ def single_ladder_case(L, i, create):
             "coeffs": {"shape": [L], "dtype": "float", "data": [[1.0 if k == i else 0.0, 0.0] for k in range(L)]}}]}
 
 
+def nz_list(M):
+    """non-zero entries [r, c, value] row-major; integers where the value is one"""
+    out = []
+    for r, c in zip(*np.nonzero(M)):
+        v = complex(M[r, c])
+        out.append([int(r), int(c), int(v.real) if v.imag == 0 and v.real == int(v.real) else repr(v)])
+    return out
+
+
 def impl_ladder(case):
     L = case["L"]
     sites, mats = [], {}
@@ -178,6 +187,7 @@ def impl_ladder(case):
             rec[name] = encode_out(P)["strings"]
             mats[(name, i)] = dense(P.as_matrix(), 2 ** L)
             mats[("ref" + name, i)] = dense(op.as_matrix(), 2 ** L)
+            rec["ref" + name] = nz_list(mats[("ref" + name, i)])
         sites.append(rec)
     out = {"val": sites, "_mats": mats}
     extra(case, out)
@@ -236,6 +246,9 @@ def compare(case, o, m):
                 want = sorted([[b["s0"], ["1/2", "0/1"]], [dict(b[s1], q=q % 2), ["-1/2" if q >= 2 else "1/2", "0/1"]]], key=skey)
                 if canon_strings(a[name]) != want:
                     return f"site {i} {name}: impl {a[name]} is not 1/2 (s0 + s1) for the model's strings {b['s0']}, {b[s1]}"
+                # the field operator's own matrix of the single ladder operator vs the model's reference ladder entries
+                if sorted(a["ref" + name]) != sorted(b["ref" + name]):
+                    return f"site {i} {name}: op.as_matrix() non-zeros {a['ref' + name][:6]} != model reference ladder {b['ref' + name][:6]}"
         return None if len(o["val"]) == len(m["val"]) else "number of sites differs"
     a, b = o["val"], m["val"]
     ca, cb = canon_strings(a["strings"]), canon_strings(b["strings"])
@@ -424,10 +437,12 @@ def exact_safe(case):
 
 def gen_patterns(op, tier, rng):
     T = tier == "thorough"
-    for L in range(1, 6):
+    for L in range(1, 7 if T else 6):
         for k in range(0, 5):
             for pattern in itertools.product("CA", repeat=k):
                 styles = ["dense", "sparse", "zero", "one"] if T else [rng.choice(["dense", "dense", "sparse", "zero", "one"])]
+                if L == 6:
+                    styles = ["sparse", "one"]
                 if not T and L == 5 and k == 4 and rng.random() < 0.5:
                     continue
                 for st in styles:
@@ -469,7 +484,7 @@ def gen_cancel(op, tier, rng):
 
 def gen_threshold(op, tier, rng):
     """weights on both sides of the pruning tolerance 1e-14 (2^-47 < 1e-14 < 2^-46), everything a power of two times a small integer"""
-    n = 40 if tier == "thorough" else 8
+    n = 100 if tier == "thorough" else 10
     for L in range(1, 6):
         for _ in range(n):
             k = rng.randint(1, 3 if L > 3 else 4)
@@ -548,8 +563,8 @@ def gen_malformed(op, tier, rng):
 
 
 def gen_random(op, tier, rng):
-    for _ in range(1200 if tier == "thorough" else 120):
-        L = rng.randint(1, 5)
+    for _ in range(5000 if tier == "thorough" else 300):
+        L = rng.randint(1, 6 if tier == "thorough" else 5)
         ts = []
         for _ in range(rng.randint(1, 3)):
             k = rng.choice([0, 1, 1, 2, 2, 2, 3, 3, 4])
@@ -590,7 +605,7 @@ def run_with(rep, tier, rng, drv, enc, oracle_fn=None):
         return o
     run_correspondence(rep, drv, gen_cases(tier, rng, enc), counted_impl, model_req, compare, oracle_fn or oracle, "drv_encode ops",
                        batch=400, req_uses_output=True)
-    rep.cov["exhaustive"] = {"create/annihilate patterns of 0..4 operators, L = 1..5": True,
+    rep.cov["exhaustive"] = {"create/annihilate patterns of 0..4 operators, L = 1.." + ("6" if tier == "thorough" else "5"): True,
                              "single ladder operators, L <= " + ("6" if tier == "thorough" else "5"): True}
 
 
